@@ -65,14 +65,13 @@ package time
 //@ spec zoneOK(s string, z int) bool = (s[z] == 90 && len(s) == z + 1) || ((s[z] == 43 || s[z] == 45) && len(s) == z + 6 && isd(s,z+1) && isd(s,z+2) && s[z+3] == 58 && isd(s,z+4) && isd(s,z+5))
 //@ spec zoneOff(s string, z int) int = s[z] == 90 ? 0 : s[z] == 43 ? n2(s,z+1) * 3600 + n2(s,z+4) * 60 : -(n2(s,z+1) * 3600 + n2(s,z+4) * 60)
 // nanoseconds denoted by the fraction digits s[f..e): the first nine digits, scaled; further digits are truncated
-//@ spec fd(s string, f int, e int, j int, w int) int = (f + j < e) ? dg(s, f+j) * w : 0
-//@ spec frac9(s string, f int, e int) int = fd(s,f,e,0,100000000) + fd(s,f,e,1,10000000) + fd(s,f,e,2,1000000) + fd(s,f,e,3,100000) + fd(s,f,e,4,10000) + fd(s,f,e,5,1000) + fd(s,f,e,6,100) + fd(s,f,e,7,10) + fd(s,f,e,8,1)
+//@ spec frac9(s string, f int, e int) int = min9(e - f) == 0 ? dv(s, f, 0) * 1000000000 : min9(e - f) == 1 ? dv(s, f, 1) * 100000000 : min9(e - f) == 2 ? dv(s, f, 2) * 10000000 : min9(e - f) == 3 ? dv(s, f, 3) * 1000000 : min9(e - f) == 4 ? dv(s, f, 4) * 100000 : min9(e - f) == 5 ? dv(s, f, 5) * 10000 : min9(e - f) == 6 ? dv(s, f, 6) * 1000 : min9(e - f) == 7 ? dv(s, f, 7) * 100 : min9(e - f) == 8 ? dv(s, f, 8) * 10 : dv(s, f, 9)
 // e is the end of the digit run starting at f
 //@ ghost fend(s string, f int) int
 //@ axiom fend_def(s string, f int, e int): (f <= e && e <= len(s) && (forall k int :: f <= k && k < e ==> isd(s, k)) && (e == len(s) || !isd(s, e))) ==> fend(s, f) == e
 
 // value of the first m (<= 9) fraction digits s[f..f+m), and the scale the parser keeps beside it
-//@ spec dv(s string, f int, m int) int = m == 0 ? (0) : m == 1 ? (dg(s, f+0)) : m == 2 ? (dg(s, f+0) * 10 + dg(s, f+1)) : m == 3 ? (dg(s, f+0) * 100 + dg(s, f+1) * 10 + dg(s, f+2)) : m == 4 ? (dg(s, f+0) * 1000 + dg(s, f+1) * 100 + dg(s, f+2) * 10 + dg(s, f+3)) : m == 5 ? (dg(s, f+0) * 10000 + dg(s, f+1) * 1000 + dg(s, f+2) * 100 + dg(s, f+3) * 10 + dg(s, f+4)) : m == 6 ? (dg(s, f+0) * 100000 + dg(s, f+1) * 10000 + dg(s, f+2) * 1000 + dg(s, f+3) * 100 + dg(s, f+4) * 10 + dg(s, f+5)) : m == 7 ? (dg(s, f+0) * 1000000 + dg(s, f+1) * 100000 + dg(s, f+2) * 10000 + dg(s, f+3) * 1000 + dg(s, f+4) * 100 + dg(s, f+5) * 10 + dg(s, f+6)) : m == 8 ? (dg(s, f+0) * 10000000 + dg(s, f+1) * 1000000 + dg(s, f+2) * 100000 + dg(s, f+3) * 10000 + dg(s, f+4) * 1000 + dg(s, f+5) * 100 + dg(s, f+6) * 10 + dg(s, f+7)) : (dg(s, f+0) * 100000000 + dg(s, f+1) * 10000000 + dg(s, f+2) * 1000000 + dg(s, f+3) * 100000 + dg(s, f+4) * 10000 + dg(s, f+5) * 1000 + dg(s, f+6) * 100 + dg(s, f+7) * 10 + dg(s, f+8))
+//@ spec dv(s string, f int, m int) int = m == 0 ? (0) : m == 1 ? (dg(s, f)) : m == 2 ? ((dg(s, f)) * 10 + dg(s, f+1)) : m == 3 ? (((dg(s, f)) * 10 + dg(s, f+1)) * 10 + dg(s, f+2)) : m == 4 ? ((((dg(s, f)) * 10 + dg(s, f+1)) * 10 + dg(s, f+2)) * 10 + dg(s, f+3)) : m == 5 ? (((((dg(s, f)) * 10 + dg(s, f+1)) * 10 + dg(s, f+2)) * 10 + dg(s, f+3)) * 10 + dg(s, f+4)) : m == 6 ? ((((((dg(s, f)) * 10 + dg(s, f+1)) * 10 + dg(s, f+2)) * 10 + dg(s, f+3)) * 10 + dg(s, f+4)) * 10 + dg(s, f+5)) : m == 7 ? (((((((dg(s, f)) * 10 + dg(s, f+1)) * 10 + dg(s, f+2)) * 10 + dg(s, f+3)) * 10 + dg(s, f+4)) * 10 + dg(s, f+5)) * 10 + dg(s, f+6)) : m == 8 ? ((((((((dg(s, f)) * 10 + dg(s, f+1)) * 10 + dg(s, f+2)) * 10 + dg(s, f+3)) * 10 + dg(s, f+4)) * 10 + dg(s, f+5)) * 10 + dg(s, f+6)) * 10 + dg(s, f+7)) : (((((((((dg(s, f)) * 10 + dg(s, f+1)) * 10 + dg(s, f+2)) * 10 + dg(s, f+3)) * 10 + dg(s, f+4)) * 10 + dg(s, f+5)) * 10 + dg(s, f+6)) * 10 + dg(s, f+7)) * 10 + dg(s, f+8))
 //@ spec p10(k int) int = k == 0 ? 1 : k == 1 ? 10 : k == 2 ? 100 : k == 3 ? 1000 : k == 4 ? 10000 : k == 5 ? 100000 : k == 6 ? 1000000 : k == 7 ? 10000000 : k == 8 ? 100000000 : 1000000000
 //@ spec min9(d int) int = d < 9 ? d : 9
 //@ global errCannotParseNumber != nil
